@@ -156,8 +156,19 @@ def check_extract(ctx, ext: FuncInfo):
     rule = "C08.b PEAK-OF-RUN"
     # the run finder: the helper called on a comparison of scores with the threshold
     finder = None
+    # a local that holds the comparison (mask = scores > threshold; where(mask)) is followed to its single assignment
+    assigned = {}
     for n in ast.walk(ext.node):
-        if isinstance(n, ast.Call) and isinstance(n.func, (ast.Name, ast.Attribute)) and n.args and isinstance(n.args[0], ast.Compare):
+        if isinstance(n, ast.Assign) and len(n.targets) == 1 and isinstance(n.targets[0], ast.Name):
+            assigned.setdefault(n.targets[0].id, []).append(n.value)
+
+    def is_comparison(a):
+        if isinstance(a, ast.Compare):
+            return True
+        return isinstance(a, ast.Name) and len(assigned.get(a.id, [])) == 1 and isinstance(assigned[a.id][0], ast.Compare)
+
+    for n in ast.walk(ext.node):
+        if isinstance(n, ast.Call) and isinstance(n.func, (ast.Name, ast.Attribute)) and n.args and is_comparison(n.args[0]):
             r = ctx.P.resolve_expr(ext.module, n.func)
             if isinstance(r, FuncInfo):
                 finder = r
@@ -268,6 +279,9 @@ def check_runs(ctx, finder: FuncInfo):
                 return isinstance(v, NoneV)
             return isinstance(v, Num) and isinstance(p0, Num) and v.nf is not None and nf_equal(v.nf, p0.nf)
 
+        def state_names(p_):
+            return [n for n in svars if any(f"{lp.lid}.{n}.in" in repr(c_) for c_, _ in p_.facts)]
+
         for e in inloop:
             tv = e.data["value"]
             if "in" in seen:
@@ -276,7 +290,11 @@ def check_runs(ctx, finder: FuncInfo):
             ok = isinstance(tv, TupleV) and len(tv.items) == 2 and isinstance(tv.items[1], Num) and nf_equal(tv.items[1].nf, lv) and is_carried_start(tv.items[0])
             ctx.check(ok, rule, "transition-end", e.loc(), "at a True->False transition the run (carried start, i) is recorded: it ends before the first False position", found=repr(tv), expected="(start, i)")
             be = lp.info["body_env"]
-            marker = [n for n in svars if is_carried_start(tv.items[0]) and (f".{n}.in" in (tv.items[0].key if isinstance(tv.items[0], OpaqueV) else repr(tv.items[0])))] if isinstance(tv, TupleV) and tv.items else []
+            # the 'a run is open' state: the carried variable(s) the branch conditions test - the start variable itself
+            # (None / sentinel when idle) or a separate boolean flag
+            marker = state_names(p)
+            if not marker:
+                marker = [n for n in svars if is_carried_start(tv.items[0]) and (f".{n}.in" in (tv.items[0].key if isinstance(tv.items[0], OpaqueV) else repr(tv.items[0])))] if isinstance(tv, TupleV) and tv.items else []
             reset = bool(marker) and all(same_as_pre(n, be.get(n)) for n in marker)
             ctx.check(reset, rule, "transition-reset", e.loc(), "after recording a run the start marker is reset to its 'no open run' value (None / sentinel)", found={n: repr(be.get(n)) for n in svars})
         for e in after:
@@ -312,7 +330,19 @@ def check_runs(ctx, finder: FuncInfo):
         if not inloop and svars and any(isinstance(be.get(n), Num) and be.get(n).nf is not None and nf_equal(be.get(n).nf, lv) for n in svars):
             if "open" not in seen:
                 seen.add("open")
-                ctx.holds(rule, "transition-start", finder.loc(lp.node), "at a False->True transition the run start is set to the current position i")
+                def surely_open(n, v):
+                    p0 = pre.get(n)
+                    if isinstance(p0, NoneV):
+                        return isinstance(v, Num)
+                    if isinstance(v, Num) and isinstance(p0, Num) and v.nf is not None and p0.nf is not None:
+                        c0, c1 = p0.nf.as_const(), v.nf.as_const()
+                        if c0 is not None and c1 is not None:
+                            return c0 != c1
+                        return c0 is not None and c0 < 0 and nf_equal(v.nf, lv)  # a position is never the negative sentinel
+                    return False
+
+                still_idle = [n for n in state_names(p) if not surely_open(n, be.get(n))]
+                ctx.check(not still_idle, rule, "transition-start", finder.loc(lp.node), "at a False->True transition the run start is set to the current position i and the 'run open' state is left idle no longer", found={n: repr(be.get(n)) for n in svars})
     for k, what in (("in", "records a run at a True->False transition"), ("after", "records a run that is still open at the end"), ("open", "opens a run at a False->True transition")):
         if k not in seen:
             ctx.violation(rule, k, finder.loc(), f"no path {what}")
